@@ -36,7 +36,7 @@ ASSUMPTIONS = [
     "didChange carries the full text; didSave is sent after the client has rewritten the file with the text it last supplied; didOpen carries the logical text (the server ignores it)",
     "generated texts: one class per file named after the file, a parent class that is another file of the workspace or none, no `uses`, bodies reference members only: all cross-file look-ups go through the parent link; the inheritance relation of the logical workspace stays acyclic (initially and after every edit)",
     "contents are abstracted to (version id, parent); generated version ids are unique per document, member names F_<doc>_<version>_<k>, the unused local u_<doc>_<version> and the number of leading blank lines make the version an answer was computed from readable from the answer",
-    "the files on disk change only through the client's save; files are neither created nor deleted during a history",
+    "the files on disk change through the client's save, or are rewritten by another program right before the client closes the document (no other external change); files are neither created nor deleted during a history",
     "the oracle is a freshly started server of the SAME binary on a copy of the logical workspace: a defect shared by every start (e.g. a wrong answer that does not depend on history) is invisible to C02 (C10-C13 cover answers as such)",
 ]
 
@@ -209,6 +209,15 @@ def gen_history(rng, max_steps=25):
             disk[p] = logical()[p]
             opened[p] = None
             evs.append(("S", p))
+        elif k < 0.89:
+            # the file is rewritten by another program and the client only CLOSES the document: in the model's terms a
+            # change + save + close of which the server sees the close alone (it must then answer from the file)
+            cur = logical()[p]
+            ver = dict(cur, vid=nextvid[p], nf=rng.randint(1, 3), broken=None)
+            nextvid[p] += 1
+            disk[p] = ver
+            opened[p] = None
+            evs += [("C", p, ver, "silent"), ("S", p, "silent"), ("X", p)]
         elif k < 0.95:
             opened[p] = None
             evs.append(("X", p))
@@ -260,11 +269,12 @@ def show_history(ws, evs):
             out.append("%s(%s)" % (e[1], cname(e[2])))
         elif e[0] == "C":
             v = e[2]
-            out.append("didChange(%s -> version %d: parent %s, %d fields, references G%d%s)" % (
+            out.append(("[not sent] " if len(e) > 3 else "") + "didChange(%s -> version %d: parent %s, %d fields, references G%d%s)" % (
                 cname(e[1]), v["vid"], cname(v["par"]) if v["par"] is not None else "none", v["nf"], v["ref"],
                 ", syntax broken (%s)" % v["broken"] if v["broken"] else ""))
         else:
-            out.append("%s(%s)" % ({"O": "didOpen", "S": "didSave", "X": "didClose"}[e[0]], cname(e[1])))
+            out.append("%s(%s)%s" % ({"O": "didOpen", "S": "didSave", "X": "didClose"}[e[0]], cname(e[1]),
+                                     " [file rewritten, no notification sent]" if len(e) > 2 and e[0] == "S" else ""))
     return {"workspace": ["%s: parent %s, %d fields, references G%d" % (cname(p), cname(v["par"]) if v["par"] is not None else "none", v["nf"], v["ref"])
                           for p, v in enumerate(ws)], "history": out}
 
@@ -504,6 +514,8 @@ def run_history(binary, ws, evs, scratch, with_fresh=True):
             td = {"uri": srv.uri(p)}
             if e[0] == "O":
                 srv.s.notify("textDocument/didOpen", {"textDocument": dict(td, languageId="gold", version=1, text=text_of(p, logical[p]))})
+            elif e[0] == "C" and len(e) > 3:
+                opened[p] = e[2]            # silent: part of an external rewrite (see gen_history), the server is not told
             elif e[0] == "C":
                 opened[p] = e[2]
                 # full-text sync: the LAST event of a notification is the document; every third change carries an
@@ -519,7 +531,8 @@ def run_history(binary, ws, evs, scratch, with_fresh=True):
                 opened[p] = None
                 with open(paths[p], "w", encoding="utf-8") as f:
                     f.write(text_of(p, disk[p]))
-                srv.s.notify("textDocument/didSave", {"textDocument": td})
+                if len(e) == 2:             # (a silent save only rewrites the file)
+                    srv.s.notify("textDocument/didSave", {"textDocument": td})
             elif e[0] == "X":
                 opened[p] = None
                 srv.s.notify("textDocument/didClose", {"textDocument": td})
@@ -618,6 +631,18 @@ def check_one(binary, ws, evs, scratch, listed, with_fresh=True):
     return problems, stats, recs, pred, trig
 
 
+def silent_ok(evs):
+    """an external rewrite is three events that only make sense together: silent change, silent save, close"""
+    for i, e in enumerate(evs):
+        if e[0] == "C" and len(e) > 3:
+            if not (i + 2 < len(evs) and evs[i + 1][0] == "S" and len(evs[i + 1]) > 2 and evs[i + 1][1] == e[1]
+                    and tuple(evs[i + 2]) == ("X", e[1])):
+                return False
+        if e[0] == "S" and len(e) > 2 and not (i > 0 and evs[i - 1][0] == "C" and len(evs[i - 1]) > 3):
+            return False
+    return True
+
+
 def shrink(binary, ws, evs, scratch, listed, kind, budget=60):
     """delete events while a problem of the same kind remains"""
     def fails(cand):
@@ -632,12 +657,14 @@ def shrink(binary, ws, evs, scratch, listed, kind, budget=60):
     if first is None:
         return cur, None
     cur = cur[: first[0] + 1]
+    while not silent_ok(cur) and len(cur) < len(evs):
+        cur = list(evs[: len(cur) + 1])
     improved = True
     while improved and budget > 0:
         improved = False
         for i in range(len(cur) - 1, -1, -1):
             cand = cur[:i] + cur[i + 1:]
-            if not cand:
+            if not cand or not silent_ok(cand):
                 continue
             budget -= 1
             f = fails(cand)
